@@ -199,8 +199,8 @@ func (f *Frame) invoke(st *State, fi *FuncInfo, args []Term, tsub map[*types.Typ
 	if fi.Obj.Pkg() != nil && vc.prog.PurePkgs[fi.Obj.Pkg().Path()] {
 		return []Term{f.uf(fi, args)}
 	}
-	if f.spec && fi.Decl != nil && fi.Decl.Body != nil {
-		// spec code may call small real helpers: inline them
+	if (f.spec || f.openWorld) && fi.Decl != nil && fi.Decl.Body != nil {
+		// spec code (and map-order obligations) may call small real helpers: inline them
 		return f.inline(st, fi.Pkg, fi.Decl, fi, args, tsub, true, pos)
 	}
 	vc.fail(pos, "call to %s: no contract, model, inline or pure directive", fi.Key)
@@ -222,10 +222,7 @@ func (f *Frame) uf(fi *FuncInfo, args []Term) Term {
 			as = append(as, a.Sort)
 		}
 		// declared at the head of the script so every later query sees it
-		vc.script = append([]string{fmt.Sprintf("(declare-fun %s (%s) %s)", name, strings.Join(as, " "), rs)}, vc.script...)
-		for _, o := range vc.obls {
-			o.ScriptLen++
-		}
+		vc.funDecls = append(vc.funDecls, fmt.Sprintf("(declare-fun %s (%s) %s)", name, strings.Join(as, " "), rs))
 	}
 	if len(args) == 0 {
 		return Term{"(" + name + ")", rs}
@@ -437,7 +434,7 @@ func (f *Frame) inline(st *State, cpk *packages.Package, decl *ast.FuncDecl, fi 
 		vc.fail(pos, "inlining depth exceeded (recursive spec function?)")
 	}
 	nf := &Frame{vc: vc, pk: cpk, fi: fi, old: f.old, spec: spec, tsub: tsub, bound: f.bound, specEnv: f.specEnv,
-		depth: f.depth + 1, inOld: f.inOld, monitors: f.monitors, closures: map[types.Object]*ast.FuncLit{}, guard: f.guard}
+		depth: f.depth + 1, inOld: f.inOld, monitors: f.monitors, closures: map[types.Object]*ast.FuncLit{}, guard: f.guard, openWorld: f.openWorld}
 	params := funcParams(cpk, decl)
 	nf.results = funcResults(cpk, decl)
 	saved := map[envKey]Term{}
@@ -448,14 +445,11 @@ func (f *Frame) inline(st *State, cpk *packages.Package, decl *ast.FuncDecl, fi 
 			saved[k], had[k] = v, true
 		}
 		if i < len(args) {
-			if isStructValue(p.Type()) {
-				vc.fail(pos, "struct-valued parameter %s", p.Name())
-			}
 			st.env[k] = args[i]
 		}
 	}
 	for _, r := range nf.results {
-		if r.Name() != "" && r.Name() != "_" && !isStructValue(r.Type()) {
+		if r.Name() != "" && r.Name() != "_" {
 			st.env[envKey{r, ""}] = vc.zero(nf.subst(r.Type()))
 		}
 	}
@@ -581,10 +575,7 @@ func (f *Frame) builtin(st *State, name string, call *ast.CallExpr) []Term {
 			name := "maplen_" + mangle(ks)
 			if !vc.ufs[name] {
 				vc.ufs[name] = true
-				vc.script = append([]string{fmt.Sprintf("(declare-fun %s (%s) Int)", name, ArraySort(ks, SBool))}, vc.script...)
-				for _, o := range vc.obls {
-					o.ScriptLen++
-				}
+				vc.funDecls = append(vc.funDecls, fmt.Sprintf("(declare-fun %s (%s) Int)", name, ArraySort(ks, SBool)))
 			}
 			l := app(SInt, name, Select(vc.mapDom(st, ks), x))
 			vc.assume(st, app(SBool, ">=", l, IntLit(0)))
@@ -775,7 +766,7 @@ func (f *Frame) vsCall(st *State, name string, call *ast.CallExpr) []Term {
 		return []Term{f.quantifier(st, call, 2, name == "ExistsRange", func(vs []Term) Term {
 			return And(app(SBool, "<=", lo, vs[0]), app(SBool, "<", vs[0], hi))
 		})}
-	case "ForallInt", "ForallString", "ForallInt2", "ForallRef":
+	case "ForallInt", "ForallString", "ForallInt2", "ForallRef", "ForallValue":
 		return []Term{f.quantifier(st, call, 0, false, nil)}
 	case "ExistsInt", "ExistsString":
 		return []Term{f.quantifier(st, call, 0, true, nil)}
@@ -966,10 +957,7 @@ func (vc *VC) ufApp(name, rs string, args ...Term) Term {
 		for _, a := range args {
 			as = append(as, a.Sort)
 		}
-		vc.script = append([]string{fmt.Sprintf("(declare-fun %s (%s) %s)", name, strings.Join(as, " "), rs)}, vc.script...)
-		for _, o := range vc.obls {
-			o.ScriptLen++
-		}
+		vc.funDecls = append(vc.funDecls, fmt.Sprintf("(declare-fun %s (%s) %s)", name, strings.Join(as, " "), rs))
 	}
 	return app(rs, name, args...)
 }
@@ -1266,10 +1254,7 @@ func (f *Frame) namedFuncValue(st *State, fn *types.Func) Term {
 	name := "fn_" + mangle(funcKey(fn))
 	if !vc.declared[name] {
 		vc.declared[name] = true
-		vc.script = append([]string{fmt.Sprintf("(declare-const %s Int)", name), fmt.Sprintf("(assert (not (= %s 0)))", name)}, vc.script...)
-		for _, o := range vc.obls {
-			o.ScriptLen += 2
-		}
+		vc.funDecls = append(vc.funDecls, fmt.Sprintf("(declare-const %s Int)", name), fmt.Sprintf("(assert (not (= %s 0)))", name))
 	}
 	if vc.namedFns == nil {
 		vc.namedFns = map[string]*types.Func{}
